@@ -496,10 +496,11 @@ Record variant := mkV {
   v_da_root : bool;                     (* C18-fix-5 *)
   v_type_pre_arg : bool;                (* C18-fix-2: _filter_by_type records arg, not self *)
   v_inv_guard : bool;                   (* C18-fix-3: inverse_filter(depth) with no filters *)
-  v_cm_guard : bool }.                  (* C18-fix-6: cell_methods with no key found *)
+  v_cm_guard : bool;                    (* C18-fix-6: cell_methods with no key found *)
+  v_pop_default : bool }.               (* C18-fix-7: inverse_filter pops with a default *)
 
-Definition cur : variant := mkV identities_short true true true true.
-Definition old : variant := mkV identities_short_old false false false false.
+Definition cur : variant := mkV identities_short true true true true true.
+Definition old : variant := mkV identities_short_old false false false false false.
 
 Definition run_filter (V : variant) (E : env) (am : amode) (pm : list string) (f : fspec)
            (arg : list construct) : result (list construct) :=
@@ -603,7 +604,11 @@ Definition minus (a b : list construct) : list construct :=
 (* Constructs.inverse_filter(depth) *)
 Definition inverse_filter (V : variant) (depth : option nat) (self : cobj) : result cobj :=
   let out := unfilter depth self in
-  let plain := Ok (CObj (minus (members out) (members self)) (true :: applied self) (Some self)) in
+  let plain :=
+    (* "for key in self: out._pop(key)": KeyError on a key that out lacks *)
+    if v_pop_default V || inclb (keys_of (members self)) (keys_of (members out))
+    then Ok (CObj (minus (members out) (members self)) (true :: applied self) (Some self))
+    else Err KeyErr in
   match depth with
   | Some (S d0) =>
       match applied self with
